@@ -412,6 +412,242 @@ fn gen_lbfgs(path: &str) {
     println!("lbfgs: {} events, {} timeouts", n, timeouts);
 }
 
+
+// ------------------------------------------------------------------------------------------
+// logistic regression
+// ------------------------------------------------------------------------------------------
+
+/// features are multiples of 2^-XS (exactly representable, logged as integers)
+const XS: i32 = 4;
+/// alpha = alphaNum / 2^AS
+const AS: i32 = 6;
+
+#[derive(Clone)]
+struct LogitCase {
+    n: usize,
+    p: usize,
+    k: usize,
+    /// label values times two (ascending), class index per row, features times 2^XS
+    labels2: Vec<i64>,
+    yc: Vec<usize>,
+    xi: Vec<Vec<i64>>,
+    /// query rows (the training rows followed by fresh rows)
+    qi: Vec<Vec<i64>>,
+    alpha_num: i64,
+    layout: &'static str,
+}
+
+fn gauss(r: &mut StdRng) -> f64 {
+    // sum of uniforms: good enough for a data generator
+    let mut s = 0.0;
+    for _ in 0..6 {
+        s += r.gen::<f64>();
+    }
+    (s - 3.0) * 1.414
+}
+
+fn gen_logit(r: &mut StdRng, idx: usize, th: bool) -> LogitCase {
+    let k = 2 + (idx % 3);
+    let p = 1 + r.gen_range(0..6);
+    let nmax = if th { 100 } else { 60 };
+    let n = r.gen_range((6usize.max(k + 1))..=nmax);
+    let pool: [i64; 12] = [-14, -2, 0, 1, 2, 4, 6, 7, 20, 200, 2001, -3];
+    let mut labels2: Vec<i64> = vec![];
+    while labels2.len() < k {
+        let v = pool[r.gen_range(0..pool.len())];
+        if !labels2.contains(&v) {
+            labels2.push(v);
+        }
+    }
+    labels2.sort();
+    // per-feature scale 0.1 .. 100 and shift
+    let scales = [0.125, 0.5, 1.0, 4.0, 16.0, 100.0];
+    let sc: Vec<f64> = (0..p).map(|_| scales[r.gen_range(0..scales.len())]).collect();
+    let sh: Vec<f64> = (0..p)
+        .map(|j| if r.gen_bool(0.5) { 0.0 } else { sc[j] * r.gen_range(-3..=3) as f64 })
+        .collect();
+    let (layout, sep) = match r.gen_range(0..5) {
+        0 => ("same", 0.0),
+        1 => ("overlap", 0.7),
+        2 => ("overlap", 1.5),
+        3 => ("apart", 3.0),
+        _ => ("separable", 8.0),
+    };
+    let means: Vec<Vec<f64>> = (0..k)
+        .map(|_| (0..p).map(|_| sep * (r.gen::<f64>() - 0.5) * 2.0).collect())
+        .collect();
+    let lim = 4000.0;
+    let row = |r: &mut StdRng, c: usize| -> Vec<i64> {
+        (0..p)
+            .map(|j| {
+                let v = sh[j] + sc[j] * (means[c][j] + gauss(r));
+                let q = (v * (1 << XS) as f64).round();
+                q.max(-lim).min(lim) as i64
+            })
+            .collect()
+    };
+    let mut yc: Vec<usize> = (0..n).map(|i| if i < k { i } else { r.gen_range(0..k) }).collect();
+    // unbalanced now and then
+    if r.gen_range(0..4) == 0 {
+        for v in yc.iter_mut().skip(k) {
+            if r.gen_bool(0.7) {
+                *v = 0;
+            }
+        }
+    }
+    // random order of the rows
+    for i in (1..n).rev() {
+        let j = r.gen_range(0..=i);
+        yc.swap(i, j);
+    }
+    let xi: Vec<Vec<i64>> = yc.iter().map(|&c| row(r, c)).collect();
+    let mut qi = xi.clone();
+    for _ in 0..8 {
+        let c = r.gen_range(0..k);
+        qi.push(row(r, c));
+    }
+    let alphas: [i64; 8] = [0, 1, 4, 16, 64, 128, 256, 640];
+    let alpha_num = alphas[r.gen_range(0..alphas.len())];
+    LogitCase {
+        n,
+        p,
+        k,
+        labels2,
+        yc,
+        xi,
+        qi,
+        alpha_num,
+        layout,
+    }
+}
+
+fn to_matrix(rows: &[Vec<i64>]) -> DenseMatrix<f64> {
+    let n = rows.len();
+    let p = rows[0].len();
+    let mut v = Vec::with_capacity(n * p);
+    for r in rows {
+        for x in r {
+            v.push(*x as f64 / (1 << XS) as f64);
+        }
+    }
+    DenseMatrix::from_array(n, p, &v)
+}
+
+/// largest s in 0..=30 with max|v| * 2^s < 2^15; None when max|v| >= 2^15 or not finite
+fn scale_for(v: &[f64]) -> Option<u32> {
+    let m = v.iter().fold(0.0f64, |a, x| a.max(x.abs()));
+    if !m.is_finite() || v.iter().any(|x| !x.is_finite()) || m >= 32768.0 {
+        return None;
+    }
+    let mut s = 30u32;
+    while s > 0 && (m * (1u64 << s) as f64).round() >= 32768.0 {
+        s -= 1;
+    }
+    if (m * (1u64 << s) as f64).round() >= 32768.0 {
+        return None;
+    }
+    Some(s)
+}
+
+struct LogitOut {
+    coef: Vec<Vec<f64>>,
+    icept: Vec<f64>,
+    pred: Vec<f64>,
+}
+
+fn run_logit(c: &LogitCase) -> Result<LogitOut, String> {
+    let x = to_matrix(&c.xi);
+    let q = to_matrix(&c.qi);
+    let y: Vec<f64> = c.yc.iter().map(|&i| c.labels2[i] as f64 / 2.0).collect();
+    let alpha = c.alpha_num as f64 / (1 << AS) as f64;
+    let lr = LogisticRegression::fit(&x, &y, LogisticRegressionParameters::default().with_alpha(alpha))
+        .map_err(|e| format!("err:{}", e))?;
+    let cm = lr.coefficients();
+    let im = lr.intercept();
+    let (cr, cc) = cm.shape();
+    let coef: Vec<Vec<f64>> = (0..cr).map(|i| (0..cc).map(|j| cm.get(i, j)).collect()).collect();
+    let (ir, ic) = im.shape();
+    let mut icept = vec![];
+    for i in 0..ir {
+        for j in 0..ic {
+            icept.push(im.get(i, j));
+        }
+    }
+    let pred = lr.predict(&q).map_err(|e| format!("err:{}", e))?;
+    Ok(LogitOut { coef, icept, pred })
+}
+
+fn logit_event(run: i64, c: &LogitCase, o: Option<Result<Result<LogitOut, String>, String>>) -> Value {
+    let mut e = json!({"run": run, "ev": "LogitFit", "n": c.n, "p": c.p, "k": c.k, "layout": c.layout,
+        "labels2": c.labels2, "yc": c.yc.iter().map(|v| v + 1).collect::<Vec<usize>>(),
+        "xS": XS, "X": c.xi, "Q": c.qi, "alphaNum": c.alpha_num, "alphaS": AS});
+    let status;
+    let (mut w_ok, mut ws, mut bs): (bool, Vec<u32>, u32) = (false, vec![0; c.p], 0u32);
+    let (mut coef, mut icept): (Vec<Vec<i64>>, Vec<i64>) = (vec![], vec![]);
+    let (mut pred2, mut pred_ok): (Vec<i64>, bool) = (vec![], false);
+    match o {
+        None => status = "timeout",
+        Some(Err(_)) => status = "panic",
+        Some(Ok(Err(_))) => status = "err",
+        Some(Ok(Ok(out))) => {
+            status = "ok";
+            // one power-of-two scale per feature column (coefficients of differently scaled
+            // features differ by orders of magnitude) and one for the intercepts
+            let p = c.p;
+            let cols: Vec<Option<u32>> = (0..p)
+                .map(|j| scale_for(&out.coef.iter().map(|r| r.get(j).cloned().unwrap_or(f64::NAN)).collect::<Vec<f64>>()))
+                .collect();
+            let shape_ok = out.coef.iter().all(|r| r.len() == p);
+            if let (true, true, Some(s2)) = (shape_ok, cols.iter().all(|s| s.is_some()), scale_for(&out.icept)) {
+                w_ok = true;
+                ws = cols.iter().map(|s| s.unwrap()).collect();
+                bs = s2;
+                coef = out
+                    .coef
+                    .iter()
+                    .map(|r| r.iter().enumerate().map(|(j, v)| Q::new(ws[j]).x(*v)).collect())
+                    .collect();
+                icept = Q::new(s2).v(&out.icept);
+            }
+            pred_ok = out.pred.iter().all(|v| int_exact(v * 2.0).is_some());
+            if pred_ok {
+                pred2 = out.pred.iter().map(|v| int_exact(v * 2.0).unwrap()).collect();
+            }
+        }
+    }
+    e["status"] = json!(status);
+    e["wOk"] = json!(w_ok);
+    e["wS"] = json!(ws);
+    e["bS"] = json!(bs);
+    e["coef"] = json!(coef);
+    e["icept"] = json!(icept);
+    e["predOk"] = json!(pred_ok);
+    e["pred2"] = json!(pred2);
+    e
+}
+
+fn gen_logit_file(path: &str) {
+    let mut out = Out::create(path);
+    let mut r = rng(90);
+    let th = thorough();
+    let n = if th { 1500 } else { 240 };
+    let (mut bad, mut unscaled) = (0, 0);
+    for idx in 0..n {
+        let c = gen_logit(&mut r, idx, th);
+        let c2 = c.clone();
+        let o = watchdog(60, move || run_logit(&c2));
+        let e = logit_event(idx as i64 + 1, &c, o);
+        if e["status"] != "ok" {
+            bad += 1;
+        } else if e["wOk"] == false {
+            unscaled += 1;
+        }
+        out.emit(e);
+    }
+    let n = out.finish();
+    println!("logit: {} events, {} not ok, {} out of fixed-point range", n, bad, unscaled);
+}
+
 fn main() {
     let args: Vec<String> = std::env::args().skip(1).collect();
     let args = &args[..];
@@ -420,10 +656,10 @@ fn main() {
     let path = arg(args, 1);
     match mode {
         "gen-lbfgs" => gen_lbfgs(path),
+        "gen-logit" => gen_logit_file(path),
         _ => {
             eprintln!("unknown mode {}", mode);
             std::process::exit(2)
         }
     }
-    let _ = (LogisticRegression::<f64, DenseMatrix<f64>>::fit, LogisticRegressionParameters::<f64>::default);
 }
